@@ -89,6 +89,30 @@ def run(tier, replay_file=None):
             R.violation(bad["clause"], bad)
             if len(R.violations) >= 20:
                 break
+    # (d) a stream-steps response read result by result and abandoned by the client, then the server is lost: every such history
+    SHAPE_D = ('MC_StreamCrash == LET n == Len(hist\') h == hist\'[n] IN\n'
+               '   /\\ (n = 1 => h.op = "Start") /\\ (n = 2 => h.op = "Begin" /\\ h.status = 200) /\\ (n = 3 => h.op = "StreamOpen")\n'
+               '   /\\ (n \\in {4, 5} => h.op \\in {"StreamNext", "StreamClose", "Step"}) /\\ (n = 6 => h.op \\in {"Crash", "StreamClose"})\n'
+               '   /\\ (n = 7 => h.op \\in {"Crash", "Step"}) /\\ (n = 8 => h.op \\in {"Step", "Results"})\n')
+    h4, _ = gen.histories("Server", consts('{"i1"}', 4, DEV, '{"Start","Begin","Stream","Step","Results","Crash"}', kv='{0,2}', sv='{0,3}', scen='{"base"}',
+                                           timeouts='{3}', ticks='{1}'), 8, defs=SHAPE_D, extra_cfg={"action_constraints": ["MC_StreamCrash"]})
+    h4 = [h for h in h4 if any(x["op"] == "Crash" for x in h)]
+    R.cov["abandoned_stream_histories"] = len(h4)
+    if quick:
+        import random as _r2
+        h4 = _r2.Random(common.seed() + 3).sample(h4, min(len(h4), 150))
+    for hist in h4:
+        known = []
+        bad = srv_replay.replay(hist, stop=4, adapter=True, base_constants=True, known=known, probe=True)
+        R.add("traces_validated_against_impl")
+        crashes += sum(1 for x in hist if x["op"] == "Crash")
+        for k in known:
+            known_total[k[0]] = known_total.get(k[0], 0) + 1
+        if bad:
+            bad["family"] = "stream-steps abandoned by the client, then a crash"
+            R.violation(bad["clause"], bad)
+            if len(R.violations) >= 20:
+                break
     if not quick and h2:
         # torn write at every byte offset of the state file, for one history with a Tear followed by a Crash
         for hist in h2:
